@@ -2,7 +2,7 @@
 Cold start of two stations, phases (a2)–(a3) until the claimant polls the listener's address: the claimant forms
 its ring alone (second claim token, GAP requests), the listener overhears it with arbitrary lag.  Helper lemmas.
 -/
-import ProfiVerif.Lemmas.ListenNet
+import ProfiVerif.Lemmas.ListenNetR
 
 namespace PV
 open StationGap TokenRing
@@ -128,6 +128,48 @@ theorem Net.poll_bus (n : Net) (i : Nat) (now : Int) (n' : Net) (inc : Bytes) (c
 /-- **Claimant and listener** (`x` forms its ring alone in stage `stage`, `y` listens): the claimant's side is
 `Solo`, the log is a `LoneLog` not addressing the listener, the listener satisfies `LLOk` with the horizon
 `Φ = max(last poll of x, stamp + wait) + slack`, which lies at most `G` behind the end of the last transmission. -/
+def SStage.toks : SStage → Nat
+  | .c2 => 1
+  | _ => 0
+
+theorem countTok_append (a b : List Telegram) : countTok (a ++ b) = countTok a + countTok b := by
+  unfold countTok; rw [List.filter_append, List.length_append]
+
+/-- The stage with a token still to be sent (`c2`) is never entered again. -/
+theorem SStage.toks_le {s s' : Station} {stage stage' : SStage} (h : stage.ok s) (h' : stage'.ok s')
+    (hk : s'.st = .claimToken .secondToken → s.st = .claimToken .secondToken) : stage'.toks ≤ stage.toks := by
+  cases stage' with
+  | c2 =>
+    have h2 := hk h'
+    cases stage with
+    | c2 => exact Nat.le_refl _
+    | scan cur => simp only [SStage.ok] at h; rw [h.1] at h2; cases h2
+    | await a => simp only [SStage.ok] at h; rw [h.1] at h2; cases h2
+    | done => simp only [SStage.ok] at h; rw [h.1] at h2; cases h2
+    | pass => simp only [SStage.ok] at h; rw [h] at h2; cases h2
+  | scan cur => exact Nat.zero_le _
+  | await a => exact Nat.zero_le _
+  | done => exact Nat.zero_le _
+  | pass => exact Nat.zero_le _
+
+theorem SStage.toks_zero {s' : Station} {stage' : SStage} (h' : stage'.ok s') (hk : s'.st ≠ .claimToken .secondToken) :
+    stage'.toks = 0 := by
+  cases stage' with
+  | c2 => exact absurd h' hk
+  | scan cur => rfl
+  | await a => rfl
+  | done => rfl
+  | pass => rfl
+
+theorem SStage.toks_c2 {s : Station} {stage : SStage} (h : stage.ok s) (hk : s.st = .claimToken .secondToken) :
+    stage.toks = 1 := by
+  cases stage with
+  | c2 => rfl
+  | scan cur => simp only [SStage.ok] at h; rw [h.1] at hk; cases hk
+  | await a => simp only [SStage.ok] at h; rw [h.1] at hk; cases hk
+  | done => simp only [SStage.ok] at h; rw [h.1] at hk; cases hk
+  | pass => simp only [SStage.ok] at h; rw [h] at hk; cases hk
+
 structure Duo (cfg : Cfg) (G : Nat) (n : Net) (x y : Nat) (stx sty : NetStation) (l : Int) (stage : SStage)
     (r0 : TokenRing) (hd : List Telegram) (tl : Int) : Prop where
   solo : Solo cfg n x stx l
@@ -138,12 +180,22 @@ structure Duo (cfg : Cfg) (G : Nat) (n : Net) (x y : Nat) (stx sty : NetStation)
   yx : y ≠ x
   ys : y < n.bus.seen.length
   yl : y < n.stations.length
-  lis : LLOk cfg G stx.s.p.address n.bus
-    (max (n.bus.seen.getD x 0) (l + ((stage.wait cfg : Nat) : Int)) + ((stage.slack cfg : Nat) : Int)) y sty r0 hd
+  lisX : ∃ dn rs lY coll, LLOkX cfg G stx.s.p.address n.bus
+      (max (n.bus.seen.getD x 0) (l + ((stage.wait cfg : Nat) : Int)) + ((stage.slack cfg : Nat) : Int)) y sty r0 hd none
+      dn rs lY coll ∧ countTok (hd ++ rs.map telOf) + stage.toks ≤ 2
   hor : ∀ t, n.bus.txs.getLast? = some t →
     max (n.bus.seen.getD x 0) (l + ((stage.wait cfg : Nat) : Int)) + ((stage.slack cfg : Nat) : Int) ≤ cEnd cfg t + (G : Nat)
   starts : ∀ t ∈ n.bus.txs, t.start ≤ tl
   seens : n.bus.seen.getD x 0 ≤ tl ∧ n.bus.seen.getD y 0 ≤ tl
+  py : sty.s.p.rate = cfg.rate ∧ sty.s.p.slotBits = cfg.slotBits
+  pbx : stx.s.pendingBytes = 0
+
+theorem Duo.lis {cfg : Cfg} {G : Nat} {n : Net} {x y : Nat} {stx sty : NetStation} {l : Int} {stage : SStage}
+    {r0 : TokenRing} {hd : List Telegram} {tl : Int} (d : Duo cfg G n x y stx sty l stage r0 hd tl) :
+    LLOk cfg G stx.s.p.address n.bus
+      (max (n.bus.seen.getD x 0) (l + ((stage.wait cfg : Nat) : Int)) + ((stage.slack cfg : Nat) : Int)) y sty r0 hd := by
+  obtain ⟨dn, rs, lY, coll, h, -⟩ := d.lisX
+  exact h.toLLOk
 
 theorem SStage.slack_ge (cfg : Cfg) (stage : SStage) : cfg.P ≤ stage.slack cfg := by
   cases stage <;> simp only [SStage.slack] <;> omega
@@ -165,9 +217,44 @@ theorem duo_listen {cfg : Cfg} {G : Nat} {n : Net} {x y : Nat} {stx sty : NetSta
     ∃ n' inc c sty' hd', n.poll y now = (n', inc, some (.ok c)) ∧ c.tx = none ∧
       Duo cfg G n' x y stx sty' l stage r0 hd' now := by
   have hsl := SStage.slack_ge cfg stage
-  obtain ⟨inc, c, hd', hdv, hpoll, htx, hp, hL'⟩ := llisten_step d.lis d.lone hok.rate d.aL_lt d.yx d.ys now hown
+  obtain ⟨dn, rs, lY, coll, hX, hcnt⟩ := d.lisX
+  have htxs : n.bus.txs = dn ++ rs := hX.2.2.2.2.2.2.2.1
+  have hlogR : LoneLogR cfg stx.s.p.address x n.bus :=
+    ⟨d.lone.rate, d.lone.corrupt, d.lone.chained, d.lone.live, d.lone.own,
+      fun t ht => (d.lone.kinds t ht).imp id (fun ⟨g, h1, _, h3⟩ => ⟨g, h1, h3⟩)⟩
+  obtain ⟨inc, c, hdv, hpoll, htx, hp, hres⟩ := llisten_stepR hX hlogR hok.rate d.aL_lt d.yx d.ys now hown
     (by omega) (fun t ht => Int.le_trans (d.starts t ht) htl) d.hor
-  obtain ⟨hon, hal, -⟩ := d.lis
+  obtain ⟨hd', hL'⟩ : ∃ hd', ∃ dn' rs' lY' coll', LLOkX cfg G stx.s.p.address { n.bus with seen := n.bus.seen.set y now }
+      (max (n.bus.seen.getD x 0) (l + ((stage.wait cfg : Nat) : Int)) + ((stage.slack cfg : Nat) : Int)) y (upSt sty c) r0 hd' none
+      dn' rs' lY' coll' ∧ countTok (hd' ++ rs'.map telOf) + stage.toks ≤ 2 := by
+    rcases hres with hX' | ⟨k, dl, hk1, hdm, hfl, hlastd, hX'⟩
+    · exact ⟨hd, dn, rs, _, coll, hX', hcnt⟩
+    · have hnone : lastReg sty.s.p.address dl = none := by
+        unfold lastReg
+        cases hg : dl.getLast? with
+        | none => rfl
+        | some p =>
+          obtain ⟨t, fl⟩ := p
+          simp only
+          have hmem : t ∈ dl.map Prod.fst := List.mem_map_of_mem (f := Prod.fst) (List.mem_of_getLast? hg)
+          rw [hdm] at hmem
+          obtain ⟨t', ht', e⟩ := List.mem_map.1 hmem
+          have hk' := d.lone.kinds t' (by rw [htxs]; exact List.mem_append_right _ (List.mem_of_mem_take ht'))
+          have haL := d.aL_lt
+          have hlt : LoneTel stx.s.p.address sty.s.p.address (telOf t') := by
+            rcases hk' with hb | ⟨g, hg1, hg2, hb⟩
+            · have e2 : telOf t' = tokTel [stx.s.p.address] stx.s.p.address :=
+                telOf_token t' _ [stx.s.p.address] (by rw [cycSucc_single]; exact hb)
+              rw [e2]; unfold tokTel; rw [cycSucc_single]; exact .inl rfl
+            · rw [telOf_req t' g _ (by omega) (by omega) hb]; exact .inr ⟨g, by omega, hg2, rfl⟩
+          rw [← e]
+          exact hlt.regSr_none (by omega) fl
+      rw [hnone] at hX'
+      refine ⟨_, _, _, _, _, hX', ?_⟩
+      have : (hd ++ dl.map Prod.fst) ++ (rs.drop k).map telOf = hd ++ rs.map telOf := by
+        rw [hdm, List.append_assoc, ← List.map_append, List.take_append_drop]
+      rw [this]; exact hcnt
+  obtain ⟨hon, hal, -⟩ := hX
   have hpoll' : sty.s.poll sty.apps now (Bus.transmitting { n.bus with seen := n.bus.seen.set y now } y now) (sty.rx ++ inc) = .ok c := by
     rw [transmitting_seen]; exact hpoll
   have hpe := Net.poll_eq n y now sty _ inc c d.gy hal hon hdv hpoll'
@@ -182,7 +269,8 @@ theorem duo_listen {cfg : Cfg} {G : Nat} {n : Net} {x y : Nat} {stx sty : NetSta
       by simp only [List.length_set]; exact hs.xs, by simp only; rw [List.getElem?_set_ne d.yx]; exact hs.gx,
       hs.online, hs.alive, hs.inv, hs.son, hs.rx, hs.stamp, hs.prate, hs.pslot⟩,
     d.stg, d.view, ?_, List.getElem?_set_self d.yl, d.yx, by simp only [List.length_set]; exact d.ys,
-    by simp only [List.length_set]; exact d.yl, ?_, ?_, fun t ht => Int.le_trans (d.starts t ht) htl, ?_⟩
+    by simp only [List.length_set]; exact d.yl, ?_, ?_, fun t ht => Int.le_trans (d.starts t ht) htl, ?_,
+    by show c.s.p.rate = _ ∧ c.s.p.slotBits = _; rw [hp]; exact d.py, d.pbx⟩
   · have : (upSt sty c).s.p.address = sty.s.p.address := by show c.s.p.address = _; rw [hp]
     rw [this]
     exact ⟨d.lone.rate, d.lone.corrupt, d.lone.chained, d.lone.live, d.lone.own, d.lone.kinds⟩
@@ -216,6 +304,8 @@ theorem duo_claimant {cfg : Cfg} {G : Nat} {n : Net} {x y : Nat} {stx sty : NetS
   have hs := d.solo
   have hsl := SStage.slack_ge cfg stage
   have hrg := SStage.rest_ge cfg stx.s.p.address stx.s.p.hsa stage
+  obtain ⟨dnL, rsL, lYL, collL, hXL, hcntL⟩ := d.lisX
+  have htxsL : n.bus.txs = dnL ++ rsL := hXL.2.2.2.2.2.2.2.1
   obtain ⟨n', c, hp, hseen, hnow, hout⟩ := form_step hs hok stage d.stg d.view B now hown hgx hB
   refine ⟨n', c, hp, by omega, ?_⟩
   obtain ⟨hbus, st0, hst0, hset, hpoll0⟩ := Net.poll_bus n x now n' [] c hp
@@ -230,7 +320,7 @@ theorem duo_claimant {cfg : Cfg} {G : Nat} {n : Net} {x y : Nat} {stx sty : NetS
   have hsy : ({ n.bus with seen := n.bus.seen.set x now } : Bus).seen.getD y 0 = n.bus.seen.getD y 0 :=
     seen_set_other n.bus x y now hxy
   unfold FormOut at hout
-  rcases hout with ⟨a1, a2, -⟩ | ⟨stage', l', hS, hs', hv', hp', htxi, hB', hΦ, hnl⟩
+  rcases hout with ⟨a1, a2, -⟩ | ⟨stage', l', hS, hs', hv', hp', htxi, hB', hΦ, hnl, hk2, htok, hpbq⟩
   · exact .inl ⟨a1, a2⟩
   have haddr : (upSt stx c).s.p.address = stx.s.p.address := by show c.s.p.address = _; rw [hp']
   have hhsa : (upSt stx c).s.p.hsa = stx.s.p.hsa := by show c.s.p.hsa = _; rw [hp']
@@ -243,13 +333,16 @@ theorem duo_claimant {cfg : Cfg} {G : Nat} {n : Net} {x y : Nat} {stx sty : NetS
     simp only at hbus
     refine .inr (.inr ⟨stage', l', ?_, .inl htx, by rw [haddr, hhsa] at *; exact hB'⟩)
     refine ⟨hS, hs', by rw [haddr]; exact hv', ?_, hgy', d.yx, by rw [hbus]; simp only [List.length_set]; exact d.ys,
-      by rw [hlen']; exact d.yl, ?_, ?_, ?_, ?_⟩
+      by rw [hlen']; exact d.yl, ?_, ?_, ?_, ?_, d.py, by show c.s.pendingBytes = 0; rw [hpbq]; exact d.pbx⟩
     · rw [haddr, hbus]
       exact ⟨d.lone.rate, d.lone.corrupt, d.lone.chained, d.lone.live, d.lone.own, d.lone.kinds⟩
-    · rw [haddr, hseen]
-      have h1 := d.lis.other x now hxy
-      rw [hbus]
-      exact h1.mono hΦ'
+    · refine ⟨dnL, rsL, lYL, collL, ?_, ?_⟩
+      · rw [haddr, hseen]
+        have h1 := hXL.other x now hxy
+        rw [hbus]
+        exact h1.mono hΦ'
+      · have := SStage.toks_le d.stg hs' (fun hh => (hk2 hh).1)
+        omega
     · rw [hseen, hbus]
       intro t ht
       exact Int.le_trans hΦ' (d.hor t ht)
@@ -324,7 +417,7 @@ theorem duo_claimant {cfg : Cfg} {G : Nat} {n : Net} {x y : Nat} {stx sty : NetS
     have hws := SStage.wait_slack_le cfg hok stage'
     refine .inr (.inr ⟨stage', l', ?_, ?_, by rw [haddr, hhsa] at *; exact hB'⟩)
     · refine ⟨hS, hs', by rw [haddr]; exact hv', ?_, hgy', d.yx, by rw [hbus, e4]; simp only [List.length_set]; exact d.ys,
-        by rw [hlen']; exact d.yl, ?_, ?_, ?_, ?_⟩
+        by rw [hlen']; exact d.yl, ?_, ?_, ?_, ?_, d.py, by show c.s.pendingBytes = 0; rw [hpbq]; exact d.pbx⟩
       · rw [haddr, hbus]
         refine ⟨e3.trans d.lone.rate, e5.trans d.lone.corrupt, ?_, ?_, ?_, ?_⟩
         · rw [e1]
@@ -350,13 +443,34 @@ theorem duo_claimant {cfg : Cfg} {G : Nat} {n : Net} {x y : Nat} {stx sty : NetS
           rcases List.mem_append.1 ht with ht | ht
           · exact d.lone.kinds t (e2 t ht)
           · simp only [List.mem_singleton] at ht; subst ht; exact hbkind
-      · rw [haddr, hseen, hbus]
-        have h1 := d.lis.other x now hxy
+      · have h1 := hXL.other x now hxy
         have hl1 : LoneLog cfg stx.s.p.address sty.s.p.address x { n.bus with seen := n.bus.seen.set x now } :=
           ⟨d.lone.rate, d.lone.corrupt, d.lone.chained, d.lone.live, d.lone.own, d.lone.kinds⟩
-        refine LLOk.send h1 hl1 hr d.aL_lt now b hblen (by omega) (by rw [hsy]; exact Int.le_trans d.seens.2 htl)
-          (by rw [hsy]; exact hgy) hP100 ?_ e4
-        rw [hspec]
+        refine ⟨dnL.filter (fun t => decide (({ n.bus with seen := n.bus.seen.set x now } : Bus).txEnd t + 100000 > now)),
+          rsL ++ [{ start := now, sender := x, bytes := b, dropped := false }], lYL, collL, ?_, ?_⟩
+        · rw [haddr, hseen, hbus]
+          exact LLOkX.send h1 hl1 hr d.aL_lt now b hblen (by omega) (by rw [hsy]; exact Int.le_trans d.seens.2 htl)
+            (by rw [hsy]; exact hgy) hP100 (by rw [hspec]) e4
+        · have hne2 : c.s.st ≠ .claimToken .secondToken := fun hh => by
+            have := (hk2 hh).2; rw [hb] at this; cases this
+          have ht0 := SStage.toks_zero hs' hne2
+          rw [ht0, List.map_append, ← List.append_assoc, countTok_append]
+          rcases hbkind with e | ⟨g, hg1, -, e⟩
+          · have et : telOf ({ start := now, sender := x, bytes := b, dropped := false } : Transmission) =
+                tokTel [stx.s.p.address] stx.s.p.address :=
+              telOf_token _ _ [stx.s.p.address] (by rw [cycSucc_single]; exact e)
+            have h1t := SStage.toks_c2 d.stg (htok (by rw [hb, e]; rfl))
+            have : countTok [telOf ({ start := now, sender := x, bytes := b, dropped := false } : Transmission)] = 1 := by
+              rw [et]; rfl
+            simp only [List.map_cons, List.map_nil]
+            omega
+          · have haL := d.aL_lt
+            have et : telOf ({ start := now, sender := x, bytes := b, dropped := false } : Transmission) =
+                reqTel g stx.s.p.address := telOf_req _ g _ (by omega) (by omega) e
+            have : countTok [telOf ({ start := now, sender := x, bytes := b, dropped := false } : Transmission)] = 0 := by
+              rw [et]; rfl
+            simp only [List.map_cons, List.map_nil]
+            omega
       · rw [hseen, hbus, e1]
         intro t ht
         rw [List.getLast?_append] at ht
@@ -480,6 +594,8 @@ structure CS2 (cfg : Cfg) (n : Net) (x y : Nat) (stx sty : NetStation) (lx ly : 
   lisy : Listening sty ly
   lys : ly ≤ n.bus.seen.getD y 0
   pby : sty.s.pendingBytes = 0
+  py : sty.s.p.rate = cfg.rate ∧ sty.s.p.slotBits = cfg.slotBits
+  pbx : stx.s.pendingBytes = 0
 
 /-- The poll at which `x` claims: from then on claimant and listener (`Duo`, stage `c2`). -/
 theorem duo_init {cfg : Cfg} {n : Net} {x y : Nat} {stx sty : NetStation} {lx ly : Int} (h : CS2 cfg n x y stx sty lx ly)
@@ -498,7 +614,7 @@ theorem duo_init {cfg : Cfg} {n : Net} {x y : Nat} {stx sty : NetStation} {lx ly
   have hc0 := cfg.ce_pos hr 0
   have hs := h.solo
   obtain ⟨coll, hst⟩ := h.lisx
-  obtain ⟨n', c, hp, hseen, htx, hS', hs2, hv', hp'⟩ := lone_listen_claim hs hok coll hst now hown hexp hsync hv
+  obtain ⟨n', c, hp, hseen, htx, hS', hs2, hv', hp', hpbc⟩ := lone_listen_claim hs hok coll hst now hown hexp hsync hv
   obtain ⟨hbus, st0, hst0, hset, -⟩ := Net.poll_bus n x now n' [] c hp
   rw [hs.gx] at hst0
   cases hst0
@@ -533,7 +649,8 @@ theorem duo_init {cfg : Cfg} {n : Net} {x y : Nat} {stx sty : NetStation} {lx ly
     apply cvis_zero
     simp only
     omega
-  refine ⟨n', c, hp, htx, hs2, hp', hS', hs2, by rw [haddr]; exact hv', ?_, ?_, h.yx, ?_, ?_, ?_, ?_, ?_, ?_⟩
+  refine ⟨n', c, hp, htx, hs2, hp', hS', hs2, by rw [haddr]; exact hv', ?_, ?_, h.yx, ?_, ?_, ?_, ?_, ?_, ?_, h.py,
+    by show c.s.pendingBytes = 0; rw [hpbc]; exact h.pbx⟩
   · rw [haddr]
     refine ⟨by rw [hbus, hspec]; exact hs.rate, by rw [hbus, hspec]; exact h.corrupt, by rw [htxs]; exact List.pairwise_singleton _ _,
       ?_, ?_, ?_⟩
@@ -545,10 +662,10 @@ theorem duo_init {cfg : Cfg} {n : Net} {x y : Nat} {stx sty : NetStation} {lx ly
   · rw [hset, List.length_set]; exact h.yl
   · -- the listener has not seen anything of the claim token yet
     rw [haddr]
-    refine ⟨h.lisy.online, h.lisy.alive, h.lisy.inv, h.lisy.son, hne, hGy, rfl, [],
-      [{ start := now, sender := x, bytes := selfToken stx.s.p.address, dropped := false }], ly, ?_⟩
     obtain ⟨cy, hcy⟩ := h.lisy.lis
-    refine ⟨cy, (by rw [htxs]; rfl), (fun o ho => by cases ho), ?_, ?_, ?_, h.lisy.stamp, (by rw [hsyy]; exact h.lys), hcy, ?_⟩
+    refine ⟨[], [{ start := now, sender := x, bytes := selfToken stx.s.p.address, dropped := false }], ly, cy,
+      ⟨h.lisy.online, h.lisy.alive, h.lisy.inv, h.lisy.son, hne, hGy, rfl, (by rw [htxs]; rfl), (fun o ho => by cases ho),
+        ?_, ?_, ?_, h.lisy.stamp, (by rw [hsyy]; exact h.lys), hcy, ?_⟩, ?_⟩
     · rw [hsyy]
       unfold arrived
       simp only [List.map_cons, List.map_nil, List.flatten_cons, List.flatten_nil, hv0, List.take_zero, List.append_nil]
@@ -563,6 +680,12 @@ theorem duo_init {cfg : Cfg} {n : Net} {x y : Nat} {stx sty : NetStation} {lx ly
       unfold nextArr
       simp only [hv0]
       exact hstag
+    · have et : telOf ({ start := now, sender := x, bytes := selfToken stx.s.p.address, dropped := false } : Transmission) =
+          tokTel [stx.s.p.address] stx.s.p.address :=
+        telOf_token _ _ [stx.s.p.address] (by rw [cycSucc_single]; rfl)
+      simp only [List.nil_append, List.map_cons, List.map_nil]
+      rw [et]
+      exact Nat.le_refl 2
   · intro t ht
     rw [htxs, List.getLast?_singleton] at ht
     have := Option.some.inj ht
@@ -591,7 +714,7 @@ theorem cs2_wait_x {cfg : Cfg} {n : Net} {x y : Nat} {stx sty : NetStation} {lx 
     rw [hset, List.getElem?_set_ne hxy]; exact h.gy
   refine ⟨n', c, hp, htx, ⟨hS', h.lisx, by rw [hbus]; exact h.empty, by rw [hbus]; exact h.corrupt, hgy, h.yx,
     by rw [hbus]; simp only [List.length_set]; exact h.ys, by rw [hset, List.length_set]; exact h.yl, h.lisy,
-    by rw [hbus]; simp only; rw [seen_set_other _ _ _ _ hxy]; exact h.lys, h.pby⟩, by rw [hbus]⟩
+    by rw [hbus]; simp only; rw [seen_set_other _ _ _ _ hxy]; exact h.lys, h.pby, h.py, h.pbx⟩, by rw [hbus]⟩
 
 /-- `y` is polled before its time-out: nothing happens. -/
 theorem cs2_wait_y {cfg : Cfg} {n : Net} {x y : Nat} {stx sty : NetStation} {lx ly : Int} (h : CS2 cfg n x y stx sty lx ly)
@@ -614,7 +737,7 @@ theorem cs2_wait_y {cfg : Cfg} {n : Net} {x y : Nat} {stx sty : NetStation} {lx 
       hs0.online, hs0.alive, hs0.inv, hs0.son, hs0.rx, hs0.stamp, hs0.prate, hs0.pslot⟩,
     h.lisx, h.empty, h.corrupt, List.getElem?_set_self h.yl, h.yx, by simp only [List.length_set]; exact h.ys,
     by simp only [List.length_set]; exact h.yl, h.lisy, by simp only; rw [seen_set_self _ _ _ h.ys]; have := h.lys; omega,
-    h.pby⟩, rfl⟩
+    h.pby, h.py, h.pbx⟩, rfl⟩
 
 /-- **Cold start of two stations up to the poll of the listener's address** (`T` = instant at which `x`'s time-out
 runs out, `lim` = latest time of its claim, `D` = formation budget). -/
